@@ -32,6 +32,9 @@ func memInv(m *MemoryInstance) bool {
 		uint64(len(m.Buffer)) <= uint64(m.Cap)<<16
 }
 
+// VerifMemInv exports memInv to the engines' contracts.
+func VerifMemInv(m *MemoryInstance) bool { return memInv(m) }
+
 // memZeroTail: bytes between len and cap are zero, so that growing by re-slicing exposes zero pages.
 func memZeroTail(m *MemoryInstance) bool {
 	return verif_forall(func(i int) bool { return !(len(m.Buffer) <= i && i < cap(m.Buffer)) || m.Buffer[i] == 0 })
